@@ -19,7 +19,7 @@ THEOREMS = ['Pycdlib.place_disjoint', 'Pycdlib.place_in_bounds', 'Pycdlib.place_
             'Pycdlib.sectors_fit', 'Pycdlib.insert_grows_le_one', 'Pycdlib.grow_keeps_fit', 'Pycdlib.shrink_keeps_fit',
             'Pycdlib.nfScan_append', 'Pycdlib.writer_matches_cache', 'Pycdlib.writer_no_straddle', 'Pycdlib.ceiling_div_tie',
             'Pycdlib.PathTable.run_exact', 'Pycdlib.PathTable.add_to_ptr_size_tie', 'Pycdlib.PathTable.remove_from_ptr_size_tie',
-            'Pycdlib.PathTable.space_size_tie',
+            'Pycdlib.PathTable.space_size_tie', 'Pycdlib.PathTable.addAll_independent_of_copies',
             'Pycdlib.dr_recalc_tie', 'Pycdlib.dr_recalc_init_tie']
 PARTIAL = {
     'space_exact_partial': 'declared size = end of the last object is proved for the sequential placement model and for the '
